@@ -368,6 +368,9 @@ pub fn expand_type_support(input: &DeriveInput) -> Result<TokenStream> {
                 }
             }];
             let mut has_default = false;
+            // the `_ =>` arm of the default variant must come after every labelled arm, wherever the
+            // default variant is declared
+            let mut default_variant_sample = None;
             let mut variant_sample_seq = Vec::new();
             let mut variant_dynamic_sample_seq = Vec::new();
 
@@ -422,15 +425,17 @@ pub fn expand_type_support(input: &DeriveInput) -> Result<TokenStream> {
                             ).expect("Must match")},
                         };
 
-                        variant_sample_seq.push(if variant_attributes.is_default {
-                            quote! {_ => #variant_sample}
+                        if variant_attributes.is_default {
+                            default_variant_sample = Some(quote! {_ => #variant_sample});
                         } else {
-                            quote! {#first_discriminator => #variant_sample}
-                        });
+                            variant_sample_seq.push(quote! {#first_discriminator => #variant_sample});
+                        }
+                        // bind the field to a name of our own: a user field called `data` would
+                        // otherwise shadow the dynamic data being filled
                         variant_dynamic_sample_seq
-                            .push(quote! {Self::#variant_ident {#variant_field_name} => {
+                            .push(quote! {Self::#variant_ident {#variant_field_name: __dust_dds_variant_value} => {
                                 data.set_value(0, <#discriminator_type as ::dust_dds::xtypes::data_storage::DataStorageMapping>::into_storage(#first_discriminator));
-                                data.set_value(#variant_index_unsuffixed as u32, ::dust_dds::xtypes::data_storage::DataStorageMapping::into_storage(#variant_field_name));
+                                data.set_value(#variant_index_unsuffixed as u32, ::dust_dds::xtypes::data_storage::DataStorageMapping::into_storage(__dust_dds_variant_value));
                             }});
                     }
                     Fields::Unnamed(fields_unnamed) if fields_unnamed.unnamed.len() == 1 => {
@@ -460,11 +465,11 @@ pub fn expand_type_support(input: &DeriveInput) -> Result<TokenStream> {
                             ).ok()?),
                         };
 
-                        variant_sample_seq.push(if variant_attributes.is_default {
-                            quote! {_ => #variant_sample}
+                        if variant_attributes.is_default {
+                            default_variant_sample = Some(quote! {_ => #variant_sample});
                         } else {
-                            quote! {#first_discriminator => #variant_sample}
-                        });
+                            variant_sample_seq.push(quote! {#first_discriminator => #variant_sample});
+                        }
                         variant_dynamic_sample_seq
                             .push(quote! {Self::#variant_ident (a) => {
                                 data.set_value(0, <#discriminator_type as ::dust_dds::xtypes::data_storage::DataStorageMapping>::into_storage(#first_discriminator));
@@ -507,11 +512,11 @@ pub fn expand_type_support(input: &DeriveInput) -> Result<TokenStream> {
                             Self::#variant_ident,
                         };
 
-                        variant_sample_seq.push(if variant_attributes.is_default {
-                            quote! {_ => #variant_sample}
+                        if variant_attributes.is_default {
+                            default_variant_sample = Some(quote! {_ => #variant_sample});
                         } else {
-                            quote! {#first_discriminator => #variant_sample}
-                        });
+                            variant_sample_seq.push(quote! {#first_discriminator => #variant_sample});
+                        }
                         variant_dynamic_sample_seq.push(quote! {Self::#variant_ident => {
                             data.set_value(0, <#discriminator_type as ::dust_dds::xtypes::data_storage::DataStorageMapping>::into_storage(#first_discriminator));
                         },});
@@ -525,8 +530,9 @@ pub fn expand_type_support(input: &DeriveInput) -> Result<TokenStream> {
                 }
             }
 
-            if !has_default {
-                variant_sample_seq.push(quote! {_ => return None,});
+            match default_variant_sample {
+                Some(default_arm) => variant_sample_seq.push(default_arm),
+                None => variant_sample_seq.push(quote! {_ => return None,}),
             }
 
             let get_type_quote = quote! {
